@@ -83,6 +83,7 @@ def handle : Handler
     let d ← dirOf d; let ti ← ti.toNat?; let ts ← ts.toNat?
     let r ← C06.parseOp r; let rv ← regOf r
     some (judgeSel d ⟨0, ti, ts⟩ rv outcome)
+  | ["accept-cpu-run", _] => some "bad-measurement-program-could-not-be-generated-built-or-run"
   | ["accept-nonprim", _, _, outcome] => some (if outcome == "error" then "ok" else "bad-nonprimitive-component-moved")
   -- model of the instruction on the CPU: register image after a load
   | ["cpu-load", name, r, mem] => do
@@ -134,6 +135,6 @@ def handle : Handler
   | _ => none
 
 def handlers : List (String × Handler) :=
-  ["mov", "accept-movsel", "accept-nonprim", "cpu-load", "cpu-store", "accept-cpu"].map (·, handle)
+  ["mov", "accept-movsel", "accept-nonprim", "accept-cpu-run", "cpu-load", "cpu-store", "accept-cpu"].map (·, handle)
 
 end Avo.Drv.C08
